@@ -135,9 +135,9 @@ def main(argv):
         cmd = [sys.executable, os.path.abspath(__file__), prop, tier,
                '--shard', '%d/%d' % (i, nsh), '--out', out, '--budget', str(budget)]
         if nsh > 1 and i == nsh - 1:
-            # the last shard runs with assert statements stripped (python -O): a property that rests on an assert
-            # in the library does not hold for users who run optimised
-            cmd.insert(1, '-O')
+            # the last shard runs with assert statements and docstrings stripped (python -OO): a property that rests on
+            # an assert in the library, or on a docstring surviving compilation, does not hold for users who run optimised
+            cmd.insert(1, '-OO')
         logp = os.path.join(tmp, 'shard%d.log' % i)
         lf = open(logp, 'w')
         procs.append((i, out, logp, lf,
